@@ -412,4 +412,35 @@ def tryToWrite (v : View) (t : IntT) (x : Int) : WriteResult :=
 
 end View
 
+/-! ### A field inside the structure's backing store -/
+
+/-- `backing_.GetOffsetStorage(p, n)` as the generated field accessor uses it: the `n` bytes
+at byte offset `p` of the structure's buffer, or no storage (a default-constructed, incomplete
+view) when the buffer is too short. -/
+def containerOf (store : List Nat) (p n : Nat) : Option (List Nat) :=
+  if p + n ≤ store.length then some ((store.drop p).take n) else none
+
+/-- The sub-buffer *aliases* bytes `[p, p + n)` of the store: the store after the container's
+bytes became `bytes'`. -/
+def storeAfter (store : List Nat) (p : Nat) (bytes' : List Nat) : List Nat :=
+  store.take p ++ bytes' ++ store.drop (p + bytes'.length)
+
+inductive StoreWrite
+  | refused
+  | checkFailed
+  | written (store' : List Nat)
+  deriving Repr, DecidableEq
+
+/-- `structure_view.field().TryToWrite(x)` for a field whose `c`-bit container sits at byte
+`p` of the structure's buffer `store`. -/
+def storeTryToWrite (store : List Nat) (p : Nat) (order : ByteOrder) (path : Path) (c : Nat)
+    (ty : Ty) (direct : Bool) (o w : Nat) (t : IntT) (x : Int) : StoreWrite :=
+  match containerOf store p (c / 8) with
+  | none => .refused
+  | some bytes =>
+    match (fieldView ty direct { order := order, path := path, c := c, bytes := bytes } o w).tryToWrite t x with
+    | .refused => .refused
+    | .checkFailed => .checkFailed
+    | .written v' => .written (storeAfter store p v'.buf.bytes)
+
 end Emboss.Scalar
